@@ -7,7 +7,7 @@ What is taken, by brace matching on the current text of task.rs:
   * the argument of `time::interval(<expr>)`,
   * the bodies of the `Ok(()) => {..}` and `Err(err) => {..}` arms of
     `match handle_task(tokio::spawn(job)).await`, minus `tracing::…!(…)` statements,
-  * the body of the sighup arm (`_ = sighup.recv() => {..}`), minus tracing.
+  * the bodies of the sighup / sigint / sigterm arms (`_ = sighup.recv() => {..}` ..), minus tracing.
 `self.period` is spelled `period` in the slice (the only textual change).  If the text does not have
 this shape the slicer raises, the build has no slice module and the harnesses are reported
 INCONCLUSIVE (never as a pass)."""
@@ -44,6 +44,10 @@ def _statements(body):
     return [s for s in out if not re.match(r"tracing\s*::", s)]
 
 
+def _semi(stmt):
+    return stmt if stmt.endswith(";") or stmt.endswith("}") else stmt + ";"
+
+
 def _arm(text, pattern):
     m = re.search(pattern, text)
     if not m:
@@ -61,16 +65,25 @@ def slice_task(text):
     interval = re.search(r"let\s+mut\s+interval\s*=\s*time::interval\(([^;]+)\)\s*;", body)
     if not init or not interval:
         raise ValueError("backoff / interval initialisers not found")
-    mm = re.search(r"match\s+handle_task\s*\(\s*tokio::spawn\s*\(\s*job\s*\)\s*\)\s*\.await\s*", body)
-    if not mm:
-        raise ValueError("match on handle_task(..).await not found")
-    match_body, _ = _block(body, body.index("{", mm.end() - 1))
+    # the match on the job's outcome: the first `match <expr> {` inside Loop::start whose block has
+    # both an `Ok(()) =>` and an `Err(_) =>` arm (the scrutinee may be the awaited handle_task(..)
+    # itself or a variable bound to it)
+    match_body = None
+    for mm in re.finditer(r"\bmatch\s+[^{};]+\{", body):
+        cand, _ = _block(body, mm.end() - 1)
+        if re.search(r"Ok\s*\(\s*\(\s*\)\s*\)\s*=>", cand) and re.search(r"Err\s*\(\s*\w+\s*\)\s*=>", cand) and "handle_task" in body:
+            match_body = cand
+            break
+    if match_body is None:
+        raise ValueError("match on the job's outcome not found")
     parts = {
         "INIT_BACKOFF": init.group(1).strip(),
         "INTERVAL_PERIOD": interval.group(1).strip(),
         "OK_ARM": "\n        ".join(_arm(match_body, r"Ok\s*\(\s*\(\s*\)\s*\)\s*=>\s*\{")),
         "ERR_ARM": "\n        ".join(_arm(match_body, r"Err\s*\(\s*\w+\s*\)\s*=>\s*\{")),
         "HUP_ARM": "\n        ".join(_arm(body, r"_\s*=\s*sighup\.recv\(\)\s*=>\s*\{")),
+        "INT_ARM": "\n        ".join(_semi(x) for x in _arm(body, r"_\s*=\s*sigint\.recv\(\)\s*=>\s*\{")),
+        "TERM_ARM": "\n        ".join(_semi(x) for x in _arm(body, r"_\s*=\s*sigterm\.recv\(\)\s*=>\s*\{")),
     }
     return {k: re.sub(r"\bself\s*\.\s*period\b", "period", v) for k, v in parts.items()}
 
